@@ -693,6 +693,37 @@ pub fn cmd_sjis(a: &Args) {
 			}
 		}
 	}
+	// (3b) an invalid sequence in ANY port's name field (occupied or not) makes reading fail
+	for (vi, ver) in [[1u8, 3, 0], [3, 9, 0], [3, 16, 0]].iter().enumerate() {
+		let reg = db.regime_of(ver[0], ver[1]);
+		for k in 0..a.num("start-blocks", 200) as usize / 4 {
+			let beh = simple_beh(reg, &["single", "none", "ic", "none"], 0, 0);
+			let o = GenOpts::new(seed ^ 0x3b ^ ((k as u64) << 8) ^ vi as u64, *ver);
+			let built = gen::build_beh(&db, &beh, &o);
+			let port = k % 4;
+			let fields: Vec<&crate::layout::SField> = db.blocks.start_player[port].iter().filter(|f| f.k.starts_with("sjis") && f.off - 1 + f.w <= built.start_block.len()).collect();
+			if fields.is_empty() {
+				continue;
+			}
+			let f = fields[k % fields.len()];
+			let bad: &[u8] = [&[0xFFu8][..], &[0x81, 0x20], &[0xA0], &[0x41, 0x85]][k % 4];
+			let mut bytes = built.bytes.clone();
+			let at = built.events_start - built.start_block.len() + (f.off - 1);
+			for (j, b) in bad.iter().enumerate() {
+				if j < f.w {
+					bytes[at + j] = *b;
+				}
+			}
+			// keep the invalid bytes before any NUL
+			sink.count(crate::util::fnv(&bytes), true);
+			let occupied = beh.occ[port] != "none";
+			match real::read_slp(&bytes, false, false) {
+				Outcome::Err(_) => {}
+				Outcome::Ok(_) => sink.report(&viol("sjis_strict", &format!("field:{},port_occupied={}", f.n, occupied), "mismatch", format!("invalid Shift-JIS {} in the {} field of port {} was accepted", crate::util::hex(bad), f.n, port)), &|| json!({"ver": ver, "bytes_hex": crate::util::hex(&bytes)})),
+				o2 => sink.report(&viol("sjis_strict", &format!("field:{}", f.n), o2.kind(), o2.detail()), &|| json!({"ver": ver})),
+			}
+		}
+	}
 	// (4) normalisation: all scalar values against the model's map; idempotent
 	let fix = |c: u32| -> u32 {
 		for r in &ranges.ranges {
